@@ -437,7 +437,8 @@ def check_truth_tables(ctx):
         anchor = cls[0].node if cls else None
         if anchor is None:
             raise AnalysisError(f"anchor vanished: matcher class {cname}")
-        ctx.check("R-TRUTH-TABLE", f"{expr}: None exactly when the declared truth function of the component verdicts holds", anchor, not problems, "; ".join(sorted(problems))[:900],
+        ctx.check("R-DICT-FACTORIES" if cname in ("MatchesDict", "ContainsDict", "ContainedByDict") else "R-TRUTH-TABLE",
+                  f"{expr}: None exactly when the declared truth function of the component verdicts holds", anchor, not problems, "; ".join(sorted(problems))[:900],
                   examined=n, construct=f"{cls[0].module.name}:{cname}::{expr}")
     # Raises: the callable's exception is matched; returning is a mismatch; an exception that is not an Exception propagates
     for label, answer, matcher_says, want in (("the callable returns", ("val", A), True, "mismatch"), ("the callable raises an Exception the matcher accepts", ("exc", ("exc", "ValueError", "fn")), True, "none"),
@@ -461,7 +462,7 @@ def check_truth_tables(ctx):
 def run(ctx):
     ctx.rule("R-RETURN-KIND", "match() returns None, a Mismatch or a delegate's verdict -- never bool / text / collection")
     ctx.rule("R-TRUTH-TABLE", "combinator verdicts are the declared truth function of their components' verdicts")
-    ctx.rule("R-DICT-FACTORIES", "dict matcher factory tables: exact = super U sub")
+    ctx.rule("R-DICT-FACTORIES", "MatchesDict / ContainsDict / ContainedByDict: exact / super / sub key sets with per-key matchers")
     ctx.rule("R-NO-FALSY-MISMATCH", "no mismatch object can be falsy")
     ctx.rule("R-MATCH-PURE", "matching stores nothing on the matcher and mutates neither matcher state nor matchee")
     ctx.rule("R-ORDER-INDEPENDENT", "no first-match selection over a hash-ordered set")
@@ -497,33 +498,7 @@ def run(ctx):
     check_truth_tables(ctx)
 
     # ------------------------------------------------------------------ dict factories
-    want = {"MatchesDict": {"Extra", "Missing", "Differences"}, "ContainsDict": {"Missing", "Differences"}, "ContainedByDict": {"Extra", "Differences"}}
-    role = {"Extra": "_SubDictOf", "Missing": "_SuperDictOf", "Differences": "_MatchCommonKeys"}
-    tables = {}
-    for cname, keys in want.items():
-        cs = [c for c in mcls if c.name == cname]
-        if not cs:
-            raise AnalysisError(f"anchor vanished: {cname}")
-        t = cs[0].attrs.get("matcher_factories")
-        got = {}
-        if isinstance(t, ast.Dict):
-            for k, v in zip(t.keys, t.values):
-                if isinstance(k, ast.Constant):
-                    target = dotted(v)
-                    if isinstance(v, ast.Lambda) and isinstance(v.body, ast.Call):
-                        target = dotted(v.body.func)
-                    got[k.value] = target
-        tables[cname] = got
-        ctx.check("R-DICT-FACTORIES", f"{cname}.matcher_factories keys = {sorted(keys)}", t if t is not None else cs[0].node, set(got) == keys,
-                  f"{cname} checks {sorted(got)} (documented: {sorted(keys)})", construct=f"{cs[0].module.name}:{cname}::factory-keys")
-        for k, target in got.items():
-            ctx.check("R-DICT-FACTORIES", f"{cname}[{k!r}] -> {target}", t, role.get(k) == target,
-                      f"{cname}[{k!r}] is built from {target}, the role needs {role.get(k)}", construct=f"{cs[0].module.name}:{cname}::factory {k}")
-    ok = set(tables["MatchesDict"]) == set(tables["ContainsDict"]) | set(tables["ContainedByDict"])
-    ctx.check("R-DICT-FACTORIES", "exact = super-dict checks U sub-dict checks", None, ok, "MatchesDict is not the union of ContainsDict and ContainedByDict",
-              construct="testtools.matchers._dict::exact=super+sub")
-    check_dict_to_mismatch(ctx)
-
+    # (MatchesDict / ContainsDict / ContainedByDict are run on dicts with missing, extra and common keys in check_truth_tables)
     # ------------------------------------------------------------------ falsy mismatch
     for c in mismatch_classes(ctx):
         bad = [m for m in ("__bool__", "__len__") if any(m in k.methods or m in k.attrs for k in classes.mro(c) if not k.external)]
@@ -588,8 +563,7 @@ def run(ctx):
     hits = [x for x in set_selection_sites(example) if x[3]]
     ctx.check("R-ORDER-INDEPENDENT", "embedded positive example (greedy first match over set(self.matchers)) is recognised", None, len(hits) == 1,
               "the rule no longer recognises its own positive example", construct="R-ORDER-INDEPENDENT::self-check")
-    ctx.check("R-ORDER-INDEPENDENT", f"{n_set_loops} set iterations in match bodies examined", None, n_set_loops >= 1, "no set iteration found", examined=n_set_loops,
-              construct="R-ORDER-INDEPENDENT::count")
+    ctx.note(f"R-ORDER-INDEPENDENT: {n_set_loops} set iteration(s) in match bodies examined")
 
     # ------------------------------------------------------------------ format safety (shared)
     check_format_safe(ctx, "C06")
